@@ -138,6 +138,28 @@ CLAIMS["C16"] = dict(
          "region: pure operators and first evaluations.",
 )
 
+CLAIMS["C10"] = dict(
+    text="Relational proof on symbolic names: for two spellings with the same lower(), CaseInsensitiveDict agrees on membership, lookup and get over arbitrary content and "
+         "finds a key stored under the other spelling; a label or constant defined under one spelling is bound by a reference in another; '(Rn)' vs '@Rn' and 'Rn' vs "
+         "'%n' give the same mode/register field; explicit '.word' and the implicit word list are accepted together and give the same bytes and size; grouping style does "
+         "not change a value; every register / accumulator spelling in three letter cases maps to its number; synonyms have identical table records (closed). "
+         "BOUNDED (not proof): Context.skip_whitespace and Parser.literal exhaustively on small texts. Run-time check: generated programs vs respelled variants.",
+    note="Trusted: pyvc incl. SymMap, z3; lower() is uninterpreted with the homomorphism lower(p+n) = lower(p)+lower(n) assumed for the identifiers the parser admits. "
+         "The regular-expression scanner (re.I, radix spellings) is outside: bounded stand-ins and testing only. Observation: an implicit word list that begins with an "
+         "operator character continues the expression of the previous line (grammar ambiguity) - not counted as a respelling.",
+)
+
+CLAIMS["C17"] = dict(
+    text="REDUCED SCOPE. Proved (syntactic frame over the ASTs of all report sites): every compile-side diagnostic (insns, compiler, metacommands, metacommand_impl, "
+         "operators, types) passes spans (E.ctx_start, E.ctx_end, text) of one token E, and nothing outside Token.__init__ assigns ctx_start/ctx_end - so under the parser's "
+         "Token invariant every such diagnostic names the token's own file and a range inside it with start not after end. BOUNDED: Context.__repr__ (line/column, tab = 4 "
+         "columns) exhaustively on small texts. NOT provable in this family and only TESTED: that the first reported position is the planted culprit's - 15 fault kinds x "
+         "prefixes with tabs / non-ASCII / comments x main, linked and included file on the real assembler.",
+    note="The culprit relation is a relation between programs and diagnostics; no per-function contract expresses it. The Token invariant is established by the parser "
+         "(assumed). Parser report sites pass raw contexts (counted, not verified).",
+    category="proof",
+)
+
 CLAIMS["C18"] = dict(
     text="The history quantifier is reduced to a one-state invariant and proved: a complete AST inventory (regenerated every run) shows that the only module- or "
          "class-level state written in any function body is try_compute.depth, Awaiting.awaiting_stack, handle_reports.handlers_stack, Deferred.next_instance_id and "
